@@ -412,8 +412,8 @@ func (b *brokenFile) Read(p []byte) (int, error) {
 	}
 	return 0, errInjectedRead
 }
-func (b *brokenFile) Close() error              { return nil }
-func (brokenFS) Open(string) (fs.File, error)  { return &brokenFile{}, nil }
+func (b *brokenFile) Close() error            { return nil }
+func (brokenFS) Open(string) (fs.File, error) { return &brokenFile{}, nil }
 
 func c07Broken(w *core.W, j int) {
 	text := "a 300 IN A 192.0.2.1\n$INCLUDE broken.db\nb 300 IN A 192.0.2.2\n"
